@@ -5,6 +5,7 @@ set -u
 root=$(pwd)
 (cd engine && GOFLAGS=-mod=vendor GOPROXY=off GOTOOLCHAIN=local go build -o $root/bin/symgo .) || exit 3
 export VERIF_ROOT=$root
+[ -n "${VP_RUN_REPO:-}" ] && export VERIF_REPO=$VP_RUN_REPO
 for c in $(ls checks | sed 's/.json//'); do
   t0=$(date +%s)
   out=$(nice -n 10 $root/bin/symgo check $c thorough 2>&1); rc=$?
